@@ -357,6 +357,21 @@ Theorem C10_judge_lines_kf_sound : forall stream listed ls os,
 Proof. exact judge_lines_kf_sound. Qed.
 Print Assumptions C10_judge_lines_kf_sound.
 
+(* ====================================================================================================
+   13. Finding `quote-swallows-after-whitespace-line`: a block quote (quote_block: +paragraph_newline) does not end at
+       a line of blanks only - that line is read as a paragraph of blanks - and swallows the lines after it up to the
+       next empty line, code included ("~y := 1 / / > Quote. / <tab> / y = 2" leaves y = 1).  What the swallowed lines
+       become is not modelled; the judge only downgrades: inside the class (outside fences, a prose line starting
+       with ">" directly followed by a non-empty line of blanks) a verdict that would be a violation is reported as
+       `adv finding-quote-swallows-after-whitespace-line`; every other verdict - `ok` in particular - is untouched. *)
+Theorem C10_judge_quote_class_sound : forall stream listed ls os v,
+  judge_lines stream listed ls os = Some v ->
+  judge_lines0 stream listed ls os = Some v \/
+  (v = v_adv "finding-quote-swallows-after-whitespace-line" /\ quote_ws_doc ls = true /\
+   exists w, judge_lines0 stream listed ls os = Some w /\ is_violation w = true).
+Proof. exact judge_lines_inv. Qed.
+Print Assumptions C10_judge_quote_class_sound.
+
 (* ---- non-vacuity of sections 8-12 ---- *)
 (* x := 1 | ~~~ / ```mech:x / x := 2 / ``` / ~~~ (a plain fence showing a mech fence) | ```mech:me / a := 1 / ```
    |   ```mech:disabled / x := 9 /   ``` (indented, after a fence) | a paragraph | y := x *)
